@@ -134,16 +134,17 @@ def make_cases_factory(state):
     def make_cases(rng, n):
         cases = []
         while len(cases) < n:
-            kind, top_spec = c05.doc_for(rng)
+            leak_stream = rng.random() < 0.12      # XML-but-not-XHTML / XHTML tree, foreign elements, HTML-only pseudo-class + prefixed name
+            kind, top_spec = c05.doc_for(rng, rng.choice(['xml', 'xml', 'xhtml', 'html5']), True) if leak_stream else c05.doc_for(rng)
             detached = rng.random() < 0.12
             top = gen.build_doc(kind, top_spec, detached)
             els = gen.elements(top)
             names = sorted({e.name for e in els})
             for _ in range(3):
-                sel = c05.sel_text(rng, names)
-                if rng.random() < 0.15:
+                sel = c05.mixed(rng) if leak_stream and rng.random() < 0.8 else c05.sel_text(rng, names)
+                if rng.random() < 0.15 and not leak_stream:
                     sel = rng.choice([':scope', ':scope > *', '& > ' + sel, ':scope ' + sel, sel + ':not(:scope)', ':root', ':--c1'])
-                ns = rng.choice([None, NS])
+                ns = NS if leak_stream else rng.choice([None, NS])
                 try:
                     sv.compile(sel, ns, custom=CUSTOM)
                 except Exception:
